@@ -145,7 +145,11 @@ pub fn gen_label_item(g: &mut Gen) -> Item {
     } else {
         Item::Int(match g.weighted(&[4, 2, 1]) {
             0 => g.range_i64(-12, 40) as i128,
-            1 => *g.pick(&[0i128, 8, 256, 257, -1, -24, -25, -257, -65536, -65537, 1 << 31, -(1 << 31), i64::MAX as i128, i64::MIN as i128]),
+            // every head-width boundary of both signs, and the 64-bit extremes
+            1 => *g.pick(&[
+                0i128, 8, 23, 24, 255, 256, 257, 65535, 65536, 0xffff_ffff, 0x1_0000_0000, -1, -24, -25, -256, -257, -65536, -65537,
+                -0x1_0000_0000, -0x1_0000_0001, 1 << 31, -(1 << 31), i64::MAX as i128, i64::MAX as i128 - 1, i64::MIN as i128, i64::MIN as i128 + 1,
+            ]),
             _ => g.i64() as i128,
         })
     }
@@ -654,13 +658,18 @@ fn gen_key_ops(g: &mut Gen, f: &mut Faults) -> Item {
             _ => Item::Array(vec![Item::Float(1.0)]),
         };
     }
-    let n = 1 + g.below(4);
+    // mostly 1-4 entries; sometimes many (all ten registered operations and more text ones)
+    let n = if g.ratio(1, 8) { 8 + g.below(12) } else { 1 + g.below(4) };
     let mut v: Vec<Item> = vec![];
-    for _ in 0..n {
-        let c = gen_reg(g, reg::KEY_OPERATION);
+    for i in 0..n {
+        let c = if n > 6 && i < 10 && g.ratio(3, 4) { Item::Int(1 + i as i128) } else if n > 6 { Item::Text(format!("op{}", i)) } else { gen_reg(g, reg::KEY_OPERATION) };
         if !v.contains(&c) {
             v.push(c);
         }
+    }
+    if n > 6 && g.bool() {
+        let p = g.permutation(v.len());
+        v = p.into_iter().map(|i| v[i].clone()).collect();
     }
     Item::Array(v)
 }
